@@ -112,6 +112,20 @@ theorem C08_iterator_sequence_is_logical {α} (m : Int → α) (v : View) (wf : 
     intro k hk
     exact (C08_iterator_visits_C_order v wf.len k (List.mem_range.1 hk)).1
 
+/-- **T2 instance: the labeled folds (`labeled_sum`, `labeled_max`, `labeled_min`) are layout-free.**
+The model of `labeled_foldl`, which reads `array` and `labeled` step by step through their iterators,
+equals the fold over the *logical* contents, for every fold function, start value, number of labels and
+every pair of well-formed views of the same shape — so any two layouts of the same data give the same
+result. -/
+theorem C08_labeled_fold_layout_free {α} (f : α → α → α) (start : α) (maxlabel : Nat)
+    (mA : Int → α) (vA : View) (mL : Int → Int) (vL : View) (wfA : vA.WF) (wfL : vL.WF)
+    (hs : vL.shape = vA.shape) :
+    labeledFoldView f start maxlabel mA vA mL vL =
+      labeledFoldList f start maxlabel (logical mA vA) (logical mL vL) := by
+  unfold labeledFoldView
+  simp only []
+  rw [(C08_iterator_sequence_is_logical mA vA wfA).1, ← hs, (C08_iterator_sequence_is_logical mL vL wfL).1]
+
 /-- **Kernel form.** Any kernel `K` that consumes an array only as the sequence of values the iterator
 (or `at_flat`) delivers returns the same result for every memory layout of the same logical array. -/
 theorem C08_kernel_layout_free {α β} (m₁ m₂ : Int → α) (v₁ v₂ : View) (wf₁ : v₁.WF) (wf₂ : v₂.WF)
